@@ -146,6 +146,11 @@ impl SignatureOnlyGenericLibfunc for StructConstructLibfunc {
     ) -> Result<LibfuncSignature, SpecializationError> {
         let struct_type = args_as_single_type(args)?;
         let type_info = context.get_type_info(struct_type)?;
+        // A non-storable struct (a member is not storable, e.g. the description of a circuit) has no
+        // size - no value of such a type may be created.
+        if !type_info.storable {
+            return Err(SpecializationError::UnsupportedGenericArg);
+        }
         let member_types =
             StructConcreteType::try_from_long_id(context, &type_info.long_id)?.members;
 
